@@ -208,6 +208,14 @@ var goFuncs = []any{
 	22: func(a, b any) any { return b },
 	23: func(c *pongo2.ExecutionContext, a, b, d string) string { return a + "-" + b + "-" + d },
 	24: func(c *pongo2.ExecutionContext, a, b, d, e, f string) string { return a + b + d + e + f },
+	25: func(c *pongo2.ExecutionContext, xs ...string) string { return "v:" + strings.Join(xs, ",") },
+	26: func(c *pongo2.ExecutionContext, a string, xs ...int) string {
+		t := 0
+		for _, x := range xs {
+			t += x
+		}
+		return a + strconv.Itoa(t)
+	},
 }
 
 func vFunc(id int) VT { return VT{K: "func", I: int64(id)} }
